@@ -34,7 +34,7 @@ ASSUMPTIONS = [
     "inputs are the vendored corpus fonts (no generated fonts: not this technique)",
     "tables that carry free text are compared after XML white-space normalisation of their dumps when their bytes differ, as the property allows",
 ]
-EXPECTED_PROBES = ["damage.kept_raw", "edit.emptyprog", "foreign", "foreign.VDMX", "merge.untouched_checked", "edit.reorder", "input.generated", "expat.split_text_node", "reader.short", "reader.text", "reader.path", "bufsize.1", "dump.splitTables", "dump.splitGlyphs", "newline.crlf", "lossless.tables_checked"]
+EXPECTED_PROBES = ["edit.cffreals", "damage.kept_raw", "edit.emptyprog", "foreign", "foreign.VDMX", "merge.untouched_checked", "edit.reorder", "input.generated", "expat.split_text_node", "reader.short", "reader.text", "reader.path", "bufsize.1", "dump.splitTables", "dump.splitGlyphs", "newline.crlf", "lossless.tables_checked"]
 
 TIERS = {
     "quick": {"budget_s": 600, "determinism_sample": 10, "n": {"sweep": 1500, "merge": 260}, "minimise_s": 40, "max_minimise": 3},
@@ -252,7 +252,10 @@ def generate(ctx, batch, idx):
     split = bool(opts.get("splitTables") or opts.get("splitGlyphs") or opts.get("bitmapGlyphDataFormat") == "extfile")
     kinds = ["path", "named-stream", "named-short"] if split else ["path", "bytesio", "text", "short", "short", "text-short", "named-short"]
     bufs = [7, 64, 4096, 0x4000, 0x4000] + ([1] if size < 12_000 else [])
-    ops = [op for op in ([["name", r.randrange(1 << 30)]] if r.random() < 0.35 else []) + ([["fixed", r.randrange(1 << 30)]] if r.random() < 0.35 else []) + ([["reorder", r.randrange(1 << 30)]] if sel is None and r.random() < 0.15 else []) + ([["emptyprog", r.randrange(1 << 30)]] if r.random() < 0.1 else [])]
+    ops = [op for op in ([["name", r.randrange(1 << 30)]] if r.random() < 0.35 else []) + ([["fixed", r.randrange(1 << 30)]] if r.random() < 0.35 else []) + ([["reorder", r.randrange(1 << 30)]] if sel is None and r.random() < 0.15 else []) + ([["emptyprog", r.randrange(1 << 30)]] if r.random() < 0.1 else []) + ([["cffreals", r.randrange(1 << 30)]] if r.random() < 0.12 else [])]
+    if any(o[0] == "cffreals" for o in ops) and "CFF " in corpus.keys_by_tag() and r.random() < 0.7:
+        k_ = r.choice(corpus.keys_by_tag()["CFF "])
+        rel = k_[4:] if k_.startswith("bin:") else k_
     if any(o[0] == "emptyprog" for o in ops):
         cf = _composite_fonts()
         if cf:
@@ -402,6 +405,7 @@ def _execute(ctx, h, scratch):
             res["violation"] = {"class": cls, "detail": detail + " [%s opts=%s newline=%r reader=%s BUFSIZE=%d select=%s]" % (rel, h["opts"], h["newline"], h["reader"], h["bufsize"], h["select"]), "sig": dict(sig, font=rel)}
 
     damaged = None
+    src_undamaged = src
     if h.get("damage") is not None and src is not None and container.kind_of(src) == "sfnt":
         rr = prng.sub("c03damage", h["damage"])
         try:
@@ -428,6 +432,13 @@ def _execute(ctx, h, scratch):
     # the source object model and what it compiles to
     try:
         font = TTFont(io.BytesIO(src), lazy=h["lazy"], recalcTimestamp=False, ignoreDecompileErrors=damaged is not None)
+        if damaged is not None and type(font[damaged]).__name__ != "DefaultTable":
+            # the damaged payload still decodes: that is some other font, not in the quantifier (corpus and
+            # generated fonts); this clause is about tables that cannot be decoded. Back to the undamaged file.
+            probes["damage.decodes_anyway"] = 1
+            damaged = None
+            src = src_undamaged
+            font = TTFont(io.BytesIO(src), lazy=h["lazy"], recalcTimestamp=False)
         tags = [t for t in font.keys() if t != "GlyphOrder"]
         for name, seed in h.get("ops", []):
             rr = prng.sub("edit", seed)
@@ -435,6 +446,11 @@ def _execute(ctx, h, scratch):
                 nasty = rr.choice(["a & b", "<tag>", 'q"uote\'s', "]]>", "é ü 日本", "tab\there", "amp;&amp;", "  lead and trail  ", "two  spaces", "&#10;", "a&b<c>d\"e", "\U0001F600"])
                 font["name"].setName(nasty, rr.choice([1, 4, 5, 256, 300]), 3, 1, 0x409)
                 probes["edit.name"] = 1
+                if rr.random() < 0.12:
+                    # a record under the "custom" platform (4): its bytes are opaque to the library - here text that
+                    # is not valid in any encoding it tries, with a NUL byte (known finding K10: the dump cannot be parsed back)
+                    font["name"].setName(b"\x00C\xd8\x00", 260, 4, 0, 0)
+                    probes["edit.name_custom_platform"] = 1
             if name == "reorder":
                 # glyph order no longer the order of the names (whatever a dump sorts by name must still
                 # come back in glyph order)
@@ -442,6 +458,19 @@ def _execute(ctx, h, scratch):
 
                 c16.apply_edit(font, "reorder", {"k": 0, "seed": seed})
                 probes["edit.reorder"] = 1
+            if name == "cffreals" and "CFF " in font:
+                # hinting zones with fractional values: DICT arrays mixing real and integer operands (valid;
+                # whole numbers after a real one are reals in the object model and must come back as such)
+                cff_ = font["CFF "].cff
+                td_ = cff_[cff_.fontNames[0]]
+                privs = [fd.Private for fd in getattr(td_, "FDArray", [])] if hasattr(td_, "FDArray") else [td_.Private]
+                for pv in privs[:3]:
+                    base_ = rr.randrange(400, 520)
+                    # (as the decoder leaves them: once a delta is fractional the running value is a float)
+                    pv.BlueValues = [-12, 0, base_ + 0.5, float(base_ + 12), 700.0, 712 + rr.choice([0.0, 0.25])]
+                    if rr.random() < 0.5:
+                        pv.StemSnapH = [30 + rr.choice([0, 0.5]), 40.0]
+                probes["edit.cffreals"] = 1
             if name == "emptyprog" and "glyf" in font:
                 # composites that announce instructions and carry none (an empty program object): valid, and
                 # what some hinting tools leave behind
@@ -511,11 +540,18 @@ def _execute(ctx, h, scratch):
         if m_:
             # which element carries the character reference XML 1.0 has no way to express (NUL, most C0 controls)?
             try:
-                lines_ = data.decode("utf-8", "replace").splitlines()
                 ln_ = int(m_.group(1)) - 1
-                ctx_ = " ".join(lines_[max(0, ln_ - 2) : ln_ + 1])
-                if "<namerecord" in ctx_ and 'unicode="False"' in ctx_:
-                    cls = "ttx-dump-has-forbidden-character-reference:name-record-bytes"
+                # (a split dump: the line is in one of the per-table files)
+                for fn_ in sorted(os.listdir(d)):
+                    if not fn_.endswith(".ttx"):
+                        continue
+                    with open(os.path.join(d, fn_), "rb") as f_:
+                        lines_ = f_.read().decode("utf-8", "replace").replace("\r\n", "\n").replace("\r", "\n").split("\n")
+                    if ln_ < len(lines_) and "&#" in lines_[ln_]:
+                        ctx_ = " ".join(lines_[max(0, ln_ - 2) : ln_ + 1])
+                        if "<namerecord" in ctx_ and 'unicode="False"' in ctx_:
+                            cls = "ttx-dump-has-forbidden-character-reference:name-record-bytes"
+                        break
             except Exception:
                 pass
         fail(cls, "importing the dump raised %s: %s" % (type(e).__name__, str(e)[:120]), exc=type(e).__name__)
